@@ -67,8 +67,8 @@ Proof.
   intros [[A B] C] [[A' B'] C']. congruence.
 Qed.
 
-(** the exception: Create returns nil without posting for a path outside the pull request (or a file
-    without diff lines); updateDestination still counts it against the budget *)
+(** when Create cannot place a comment (errCommentSkipped, not counted against the budget since fix 15e1a20):
+    exactly for a path outside the pull request or a file without diff lines *)
 Lemma github_skip_iff files p :
   gh_create files p = None <->
   (gh_patch files (pc_path p) = None \/ exists s, gh_patch files (pc_path p) = Some s /\ parse_diff_lines s = []).
@@ -85,3 +85,61 @@ Proof. intros p e _ H. now apply github_L1. Qed.
 Lemma gitlab_L1_list diffs n pend :
   (forall p, In p pend -> 0 < pc_line p /\ pc_path p <> ""%string) -> L1 (gitlab diffs n) pend.
 Proof. intros H p e Hp Hc. destruct (H p Hp). now apply (gitlab_L1 diffs). Qed.
+
+Lemma gitlab_skip_iff diffs p :
+  gl_create diffs p = None <-> (forall d, In d diffs -> gd_new_path d <> pc_path p).
+Proof.
+  unfold gl_create, gl_discussion.
+  destruct (find (fun d => String.eqb (gd_new_path d) (pc_path p)) diffs) as [d|] eqn:Ef.
+  - apply find_some in Ef. destruct Ef as [Hin Ep]. apply String.eqb_eq in Ep. split.
+    + destruct (diff_line_for _ _) as [dl|]; [destruct (pc_anchor_before p); [|destruct (negb (dl_mod dl))]|]; discriminate.
+    + intros H. exfalso. exact (H d Hin Ep).
+  - split; auto. intros _ d Hin Ep. pose proof (find_none _ _ Ef d Hin) as K. cbn in K.
+    apply String.eqb_neq in K. contradiction.
+Qed.
+
+(* ---- the platforms over the server's state ------------------------------------------------------ *)
+
+Lemma gl_view_post diffs p n : gl_post diffs p = Some n -> gl_view n = gl_create diffs p.
+Proof.
+  unfold gl_post, gl_create. destruct (gl_discussion diffs p) as [pos|]; [|discriminate].
+  intros H. injection H as <-. reflexivity.
+Qed.
+
+Lemma gitlab_srv_L1 diffs m p n :
+  0 < pc_line p -> pc_path p <> ""%string -> create (gitlab_srv diffs m) p = Some n -> is_equal (gitlab_srv diffs m) n p = true.
+Proof.
+  intros Hl Hp H. cbn [create gitlab_srv] in H. cbn [is_equal gitlab_srv]. rewrite (gl_view_post diffs p n H).
+  destruct (gl_create diffs p) as [e|] eqn:Ec.
+  - now apply (gitlab_L1 diffs).
+  - unfold gl_post, gl_create in *. destruct (gl_discussion diffs p); discriminate.
+Qed.
+
+Lemma gitlab_srv_L1_list diffs n pend :
+  (forall p, In p pend -> 0 < pc_line p /\ pc_path p <> ""%string) -> L1 (gitlab_srv diffs n) pend.
+Proof. intros H p e Hp Hc. destruct (H p Hp). now apply (gitlab_srv_L1 diffs n). Qed.
+
+Lemma github_srv_L1 files m p c :
+  pc_path p <> ""%string -> create (github_srv files m) p = Some c -> is_equal (github_srv files m) c p = true.
+Proof.
+  intros Hp H. cbn [create github_srv] in H. cbn [is_equal github_srv]. unfold gh_view.
+  assert (ec_path c = pc_path p) as E.
+  { unfold gh_create in H. destruct (gh_patch files (pc_path p)); [|discriminate].
+    destruct (parse_diff_lines s); [discriminate|]. injection H as <-. reflexivity. }
+  rewrite E. apply String.eqb_neq in Hp. rewrite Hp. now apply github_L1.
+Qed.
+
+Lemma github_srv_L1_list files n pend :
+  (forall p, In p pend -> pc_path p <> ""%string) -> L1 (github_srv files n) pend.
+Proof. intros H p e Hp Hc. apply (github_srv_L1 files n); auto. Qed.
+
+(** what List does not show can be neither recognised nor deleted: on every platform, an element that is equal to
+    no pending comment and may not be deleted is in the store after the run and not in the delete log *)
+Lemma invisible_untouched {E P} (pf : platform E P) store pend e :
+  In e store -> (forall p, is_equal pf e p = false) -> can_delete pf e = false ->
+  In e (fst (step pf store pend)) /\ ~ In e (l_deleted (snd (step pf store pend))) /\
+  forall p, In p pend -> is_equal pf e p = false.
+Proof.
+  intros He Hn Hd. assert (Hs : stale pf pend e = false) by (unfold stale; now rewrite Hd, andb_false_r).
+  destruct (stale_removed pf store pend e He) as [_ B]. destruct (B Hs) as [B1 B2]. auto.
+Qed.
